@@ -5,4 +5,5 @@ MCKinds == @KINDS@
 MCInit == @INIT@
 MCSCtxs == @SCTXS@
 MCFCtxs == @FCTXS@
+MCFaults == @FAULTS@
 =============================================================================
